@@ -211,3 +211,9 @@ Proofs/Atoms.vos Proofs/Atoms.vok Proofs/Atoms.required_vos: Proofs/Atoms.v Mode
 Props/C14.vo Props/C14.glob Props/C14.v.beautified Props/C14.required_vo: Props/C14.v Model/Shared.vo Gen/Shared_gen.vo Proofs/Atoms.vo
 Props/C14.vio: Props/C14.v Model/Shared.vio Gen/Shared_gen.vio Proofs/Atoms.vio
 Props/C14.vos Props/C14.vok Props/C14.required_vos: Props/C14.v Model/Shared.vos Gen/Shared_gen.vos Proofs/Atoms.vos
+Proofs/NoPanic.vo Proofs/NoPanic.glob Proofs/NoPanic.v.beautified Proofs/NoPanic.required_vo: Proofs/NoPanic.v Model/GoInt.vo Model/F64.vo Model/Num.vo Gen/Arith_gen.vo Model/Eval.vo Proofs/ArithInt.vo
+Proofs/NoPanic.vio: Proofs/NoPanic.v Model/GoInt.vio Model/F64.vio Model/Num.vio Gen/Arith_gen.vio Model/Eval.vio Proofs/ArithInt.vio
+Proofs/NoPanic.vos Proofs/NoPanic.vok Proofs/NoPanic.required_vos: Proofs/NoPanic.v Model/GoInt.vos Model/F64.vos Model/Num.vos Gen/Arith_gen.vos Model/Eval.vos Proofs/ArithInt.vos
+Props/C05.vo Props/C05.glob Props/C05.v.beautified Props/C05.required_vo: Props/C05.v Model/GoInt.vo Model/F64.vo Model/Num.vo Gen/Arith_gen.vo Model/Eval.vo Model/Term.vo Model/Machine.vo Proofs/ArithInt.vo Proofs/NoPanic.vo
+Props/C05.vio: Props/C05.v Model/GoInt.vio Model/F64.vio Model/Num.vio Gen/Arith_gen.vio Model/Eval.vio Model/Term.vio Model/Machine.vio Proofs/ArithInt.vio Proofs/NoPanic.vio
+Props/C05.vos Props/C05.vok Props/C05.required_vos: Props/C05.v Model/GoInt.vos Model/F64.vos Model/Num.vos Gen/Arith_gen.vos Model/Eval.vos Model/Term.vos Model/Machine.vos Proofs/ArithInt.vos Proofs/NoPanic.vos
